@@ -14,7 +14,7 @@ PREAMBLE = ("From Coq Require Import NArith ZArith List. Import ListNotations. O
 RUNNER = "run_genc"
 FIELDS = ["per step (construction first): [ok, return value...]", "encoder state [max, cur, mid] ([] after finish)",
           "the seven iovec fields of family geo", "[live chunks, live bytes, every slice in live memory]"]
-SHARD = 150
+SHARD = 60
 BLOCK = 10
 FE, FD = 0xFE, 0xFD
 
@@ -60,7 +60,7 @@ def canon(obs, is_model):
             out.append([99])
             break
         f = b[2:9]
-        dig = f[2] if is_model else hash_bytes(f[2])
+        dig = f[2]          # both sides print the digest [length, s1, s2]
         out.append([b[0], b[1], [f[0], f[1], dig, f[3], f[4], f[5], f[6]], b[9][:2]])
     return out
 
